@@ -75,6 +75,7 @@ Hypothesis Hp : findw h p = Some cp.
 Hypothesis Hch : chain h (w_first cp) (l1 ++ w :: l3).
 Hypothesis Hs : slot_at p l1 s.
 Hypothesis Hpurged : forall q cq x, findq h q = Some cq -> q_win cq = Some x -> ~ anc h x w.
+Hypothesis Hundragged : forall d, r_drag (rx h) = Some (Some d) -> ~ In root D -> findw h root <> None -> ~ anc h d w.
 Hypothesis CB : cells_by h h' (remove_Fg fo p w s (w_next cw)).
 
 Let F := remove_Fg fo p w s (w_next cw).
@@ -280,6 +281,10 @@ Proof.
     exists x, px, cx. repeat split; auto.
     + rewrite rm_F_parent; auto. intro Ex. subst x. apply Hnw. eapply anc_refl; eauto.
     + eapply cells_by_anc; eauto. intros a c Ha Hfa _. apply rm_F_parent. intro Ea. subst a. contradiction.
+  - (* the drag source *)
+    intros d Hd Hn Hl. pose proof (Hundragged d Hd Hn Hl) as Hnw.
+    eapply (drag_kept_path D h h' F HI CB d Hd Hn Hl).
+    intros a c Ha Hfa _. apply rm_F_parent. intro Ea. subst a. contradiction.
 Qed.
 
 End Remove.
